@@ -90,13 +90,17 @@ def explore(factory, alphabet, enabled, workers=None, max_states=200000,
     frontier = [0]
     ctx = mp.get_context('fork')
     depth = 0
-    with ctx.Pool(workers, initializer=_init,
-                  initargs=(factory, alphabet, enabled)) as pool:
+    # (a ProcessPoolExecutor, not a multiprocessing.Pool: if a worker dies -
+    # out of memory, killed - the map raises instead of waiting forever)
+    import concurrent.futures as cf
+    with cf.ProcessPoolExecutor(workers, mp_context=ctx, initializer=_init,
+                                initargs=(factory, alphabet,
+                                          enabled)) as pool:
         while frontier:
             tasks = [(n, paths[n], canon(nodes[n])) for n in frontier]
             nxt = []
             chunk = max(1, len(tasks) // (workers * 4))
-            for status, nid, res in pool.imap(_expand, tasks, chunksize=chunk):
+            for status, nid, res in pool.map(_expand, tasks, chunksize=chunk):
                 if status == 'NONDET':
                     raise Nondeterminism(
                         nid + 1, [alphabet[i] for i in paths[nid]],
@@ -117,7 +121,7 @@ def explore(factory, alphabet, enabled, workers=None, max_states=200000,
                                               'a': alphabet[ai],
                                               'ai': ai + 1, 'out': o})
                                 out[nid].append(len(edges))
-                                pool.terminate()
+                                pool.shutdown(wait=False, cancel_futures=True)
                                 return {'nodes': nodes, 'out': out,
                                         'edges': edges, 'paths': paths,
                                         'depth': depth, 'partial': True,
